@@ -3,7 +3,10 @@ use aes::{
     cipher::{NewCipher, StreamCipher, StreamCipherSeek},
     Aes128, Aes128Ctr, Aes256, Aes256Ctr,
 };
-use block_modes::{block_padding::Pkcs7, BlockMode, Cbc};
+use block_modes::{
+    block_padding::{NoPadding, Pkcs7},
+    BlockMode, Cbc,
+};
 
 pub struct AES;
 
@@ -30,12 +33,23 @@ impl AES {
 
     pub fn decrypt_impl(key: &[u8], iv: &[u8], message: &[u8], algo: AESAlgorithms) -> Result<Vec<u8>, BSVErrors> {
         let result = match algo {
-            AESAlgorithms::AES128_CBC => Cbc::<Aes128, Pkcs7>::new_from_slices(key, iv)?.decrypt_vec(message)?,
-            AESAlgorithms::AES256_CBC => Cbc::<Aes256, Pkcs7>::new_from_slices(key, iv)?.decrypt_vec(message)?,
+            AESAlgorithms::AES128_CBC => AES::strip_pkcs7(Cbc::<Aes128, NoPadding>::new_from_slices(key, iv)?.decrypt_vec(message)?)?,
+            AESAlgorithms::AES256_CBC => AES::strip_pkcs7(Cbc::<Aes256, NoPadding>::new_from_slices(key, iv)?.decrypt_vec(message)?)?,
             AESAlgorithms::AES128_CTR => AES::aes_ctr::<Aes128Ctr>(key, iv, message)?,
             AESAlgorithms::AES256_CTR => AES::aes_ctr::<Aes256Ctr>(key, iv, message)?,
         };
         Ok(result)
+    }
+
+    /// Removes PKCS#7 padding of an AES (16 byte block) plaintext: the last byte p must be 1..=16 and the last p bytes all equal p.
+    /// (block-padding's own unpad accepts any p up to 255, e.g. 32 trailing bytes of 0x20.)
+    fn strip_pkcs7(mut data: Vec<u8>) -> Result<Vec<u8>, BSVErrors> {
+        let pad = *data.last().ok_or(block_modes::BlockModeError)? as usize;
+        if pad == 0 || pad > 16 || pad > data.len() || data[data.len() - pad..].iter().any(|b| *b as usize != pad) {
+            return Err(block_modes::BlockModeError.into());
+        }
+        data.truncate(data.len() - pad);
+        Ok(data)
     }
 
     fn aes_ctr<T: NewCipher + StreamCipherSeek + StreamCipher>(key: &[u8], iv: &[u8], message: &[u8]) -> Result<Vec<u8>, BSVErrors> {
